@@ -149,3 +149,37 @@ def main_of(fb, file):
     if not m:
         raise AnalysisBroken("main() of %s not found" % file)
     return m[0]
+
+
+def declared_names(func):
+    """names of parameters, locals, and fields/globals referenced in func"""
+    out = {p["n"] for p in func.params}
+    for n in func.nodes():
+        if n["k"] == "decl":
+            for d in n["decls"]:
+                out.add(d["n"])
+        elif n["k"] in ("ref", "mem"):
+            out.add(n["n"])
+        elif n["k"] == "forrange" and n.get("var"):
+            out.add(n["var"])
+    return out
+
+
+def require_names(func, names, rule):
+    """The rules that follow match these identifiers by name. If one is gone the code was renamed or restructured: that is
+    'analysis broken' (exit 2), never a VIOLATION - a rename must not raise an alarm."""
+    have = declared_names(func)
+    missing = [n for n in names if n not in have]
+    if missing:
+        raise AnalysisBroken("%s: anchor name(s) %s not found in %s (%s) - renamed or restructured; update the anchor table" % (rule, missing, func.name, func.loc()))
+
+
+def executed_flag(opstep):
+    """the local that caches vfExec.all_true() in the operation step (called fExec today) -> its name"""
+    for n in opstep.nodes():
+        if n["k"] == "decl":
+            for d in n["decls"]:
+                i = d.get("init")
+                if i is not None and i.get("k") == "mcall" and i.get("n") == "all_true" and "vfExec" in astq.estr(i.get("obj")):
+                    return d["n"]
+    raise AnalysisBroken("the operation step has no local initialised from vfExec.all_true() (the executed/unexecuted flag)")
